@@ -6,6 +6,7 @@ import ast
 
 from ..astutil import attr_chain, call_attr, calls_in, guard_facts, unparse, walk_local
 from ..cfg import CFG
+from ..dataflow import resolved_text
 from ..report import Finding, Report
 from ..srcindex import AnalysisError, Index
 
@@ -394,6 +395,34 @@ def check(idx: Index, rep: Report, tier: str) -> str:
                     r3.ok(inst)
                 else:
                     r3.fail(inst, Finding("C03.R3", f.fq, f"partial-lookup:{k}", f"`context[{k}]` without membership guard", f"{f.module.relpath}:{n.lineno}"))
+
+    # ---- R3b: a comparison of the two parents applies only when both sides have one
+    r3b = rep.rule("C03.R3b", "the parent correspondence is compared only when both operations have a parent (an attached operation is equivalent to its detached clone, in both directions)", floor=1)
+    f = idx.func(CORE, "Operation.is_structurally_equivalent")
+    from ..astutil import norm_facts, text_facts
+
+    cfg3 = CFG(f.node)
+    n_par = 0
+    for cmpn in walk_local(f.node):
+        if not (isinstance(cmpn, ast.Compare) and len(cmpn.ops) == 1 and isinstance(cmpn.ops[0], (ast.Eq, ast.NotEq, ast.Is, ast.IsNot))):
+            continue
+        try:
+            at3 = cfg3.node_of(cmpn)
+        except Exception:
+            continue
+        sides = [resolved_text(cfg3, cmpn.left, at3), resolved_text(cfg3, cmpn.comparators[0], at3)]
+        if not (any("self.parent" in x for x in sides) and any("other.parent" in x for x in sides)):
+            continue
+        n_par += 1
+        facts = norm_facts(text_facts(f.node, cmpn))
+        missing = [v for v in ("self.parent", "other.parent") if (f"{v} is None", False) not in facts and (v, True) not in facts]
+        inst = f"{f.fq}:{unparse(cmpn)[:50]}"
+        if missing:
+            r3b.fail(inst, Finding("C03.R3b", f.fq, "parent-compare-one-sided", f"`{unparse(cmpn)}` is evaluated without {' and '.join(m + ' is not None' for m in missing)}: an operation inside a block compared with a detached isomorphic operation (its clone) is rejected in one direction only", f"{f.module.relpath}:{cmpn.lineno}"))
+        else:
+            r3b.ok(inst, f"{f.module.relpath}:{cmpn.lineno} parents compared only when both exist")
+    if n_par == 0:
+        raise AnalysisError(f"{f.fq}: no comparison of self.parent with other.parent found")
 
     # ---- R4: referenced entities are registered before references to them are compared
     r4 = rep.rule("C03.R4", "blocks and values defined inside the compared region are registered before any reference to them is compared", floor=2)
